@@ -8,14 +8,16 @@ import (
 	"strings"
 )
 
-// IsJSONType method is to check JSON content type or not
+// IsJSONType method is to check JSON content type or not.
+// Media types are case-insensitive (RFC 9110, 8.3.1).
 func IsJSONType(ct string) bool {
-	return strings.Contains(ct, "json")
+	return strings.Contains(strings.ToLower(ct), "json")
 }
 
-// IsXMLType method is to check XML content type or not
+// IsXMLType method is to check XML content type or not.
+// Media types are case-insensitive (RFC 9110, 8.3.1).
 func IsXMLType(ct string) bool {
-	return strings.Contains(ct, "xml")
+	return strings.Contains(strings.ToLower(ct), "xml")
 }
 
 // GetPointer return the pointer of the interface.
